@@ -501,6 +501,52 @@ def return_exprs(func_node):
     return out
 
 
+def _const_test(test):
+    """True / False for a test made of literals only (`1.0 > 0`), else None"""
+    if any(not isinstance(x, (ast.Constant, ast.Compare, ast.BoolOp, ast.UnaryOp, ast.cmpop, ast.boolop, ast.unaryop, ast.Load, ast.BinOp, ast.operator)) for x in ast.walk(test)):
+        return None
+    try:
+        return bool(eval(compile(ast.Expression(body=test), "<const>", "eval"), {"__builtins__": {}}, {}))  # literals and operators only (checked above)
+    except Exception:  # noqa: BLE001
+        return None
+
+
+def path_exprs(func_node, pick, max_paths=256):
+    """Path-sensitive version of return_exprs / assigned_exprs: every path through the if/else structure of the function is followed separately (loops and try
+    bodies are treated as straight-line code), so temporaries assigned differently in the two branches of an `if` are resolved per path.
+    pick(stmt) -> list of expressions of interest evaluated by that statement. Result: [(conds [(closed test, polarity)], expr, env)]."""
+    out = []
+    n_paths = [0]
+
+    def run(stmts, conds, env):
+        for i, st in enumerate(stmts):
+            for e in pick(st) or []:
+                out.append((list(conds), e, dict(env)))
+            if isinstance(st, ast.Return) or isinstance(st, ast.Raise):
+                return
+            if isinstance(st, ast.If):
+                rest = list(stmts[i + 1:])
+                n_paths[0] += 1
+                if n_paths[0] > max_paths:
+                    raise ValueError("too many paths")
+                test = subst(st.test, env)
+                const = _const_test(test)
+                if const is not None:
+                    # a test on literals decides itself: only the feasible branch is a path
+                    run(list(st.body if const else st.orelse) + rest, conds, dict(env))
+                    return
+                run(list(st.body) + rest, conds + [(test, True)], dict(env))
+                run(list(st.orelse) + rest, conds + [(test, False)], dict(env))
+                return
+            if isinstance(st, ast.Try):
+                run(list(st.body) + list(st.orelse) + list(st.finalbody) + list(stmts[i + 1:]), conds, env)
+                return
+            env = straight_line_env([st], None, env)
+
+    run(list(func_node.body), [], {})
+    return out
+
+
 def assigned_exprs(func_node, target):
     """[(guard conditions, rhs expr, env)] for every assignment to `target` ('self.attr' or local name) in a function made of
     straight-line code and if/else"""
